@@ -95,6 +95,24 @@ def linky_tree(rng, nclasses=8):
     return files
 
 
+def whole_window_tree(rng):
+    """Pairs of copies of several different files of ONE length between the SSD suffix threshold (64 KiB) and 100 000 bytes: with
+    --max-prefix-size / --max-suffix-size of 100 000 both windows are the whole file and the contents stage is skipped."""
+    files = []
+    fid = 0
+    n = rng.choice([65536, 65537, 70000, 99999])
+    seed = rng.randint(0, 1 << 30)
+    for v in [None] + rng.sample(flip_offsets(n, rng), 2):
+        for k in range(2):
+            files.append({"id": fid, "root": rng.choice(ROOTS), "sub": rng.choice(["", "s"]), "name": "f%d" % fid, "seed": seed, "len": n, "flip": v,
+                          "hardlink_of": None, "symlink_to": None})
+            fid += 1
+    for k in range(2):          # and an unrelated pair of the same length
+        files.append({"id": fid, "root": rng.choice(ROOTS), "sub": "", "name": "f%d" % fid, "seed": seed + 1, "len": n, "flip": None, "hardlink_of": None, "symlink_to": None})
+        fid += 1
+    return files
+
+
 class Tree:
     def __init__(self, files, seed, mounts=False):
         self.files = files
